@@ -218,7 +218,7 @@ int main(int argc, char **argv) {
         } else if (kind == "const") {
           auto ia = regIx.find(jstr(o, "region")); if (ia == regIx.end()) { setupErrors.push_back("const: unknown region"); continue; }
           RegionDecl &da = regs[ia->second]; const json::Array *cs = o.getArray("cells"); double val = o.getNumber("value") ? *o.getNumber("value") : 0;
-          if (cs) for (auto &cv : *cs) { int64_t c = *cv.getAsInteger(); int exp = da.e.fp ? TT.cfp(val, da.e.esz) : TT.cint((int64_t)val, da.e.esz); report(cmp.compare(cellTerm(da, c), exp, "EXACT", da.e.fp, da.e.esz), da.name, c, cellSrc(da, c)); }
+          if (cs) for (auto &cv : *cs) { int64_t c = *cv.getAsInteger(); int exp = da.e.fp ? TT.cfp(val, da.e.esz) : TT.cint((int64_t)val, da.e.esz); report(cmp.compare(cellTerm(da, c), exp, jstr(o, "mode", "EXACT"), da.e.fp, da.e.esz), da.name, c, cellSrc(da, c)); }
         } else if (kind == "depends") { // the symbols occurring in the cell's term must include the given set
           auto ia = regIx.find(jstr(o, "region")); if (ia == regIx.end()) { setupErrors.push_back("depends: unknown region"); continue; }
           RegionDecl &da = regs[ia->second]; int64_t c = jint(o, "cell"); std::string ns = jstr(o, "ns"); auto nit = TT.nsix.find(ns); const json::Array *need = o.getArray("cells");
